@@ -27,7 +27,73 @@ class Fixed(Calculator):
         self.results = {"energy": self.e, "forces": np.zeros((len(self.atoms), 3))}
 
 
+class Quad(Calculator):
+    """energy = a smooth function of positions and volume; standard caching"""
+    implemented_properties = ["energy", "forces"]
+
+    @staticmethod
+    def energy_of(atoms):
+        return 0.01 * float(np.sum(atoms.positions ** 2)) + 0.002 * float(atoms.get_volume())
+
+    def calculate(self, atoms=None, properties=("energy",), system_changes=all_changes):
+        super().calculate(atoms, properties, system_changes)
+        self.results = {"energy": self.energy_of(self.atoms), "forces": -0.02 * self.atoms.positions}
+
+
+class Spy:
+    """wraps the SHIPPED criteria of a table entry: records the uniform number it is about to draw (from a copy of the generator state),
+    the trial state it judges (energy recomputed from the atoms, volume) and its verdict"""
+
+    def __init__(self, real, log, name):
+        self.real, self.log, self.name = real, log, name
+
+    def evaluate(self, context):
+        import copy
+        st = copy.deepcopy(context.rng.bit_generator.state)
+        v = self.real.evaluate(context)
+        g = np.random.Generator(np.random.PCG64())
+        g.bit_generator.state = st
+        self.log.append({"move": self.name, "u": float(g.random()), "E_new": Quad.energy_of(context.atoms), "V_new": float(context.atoms.get_volume()),
+                         "natoms": len(context.atoms), "verdict": bool(v), "criteria_class": type(self.real).__name__})
+        return v
+
+    def to_dict(self):
+        return self.real.to_dict()
+
+
+def drive_iso(c):
+    """the acceptance rule as the DRIVER applies it: the reference state of a trial is the configuration the run started from (whatever the user did to
+    the atoms between construction and run, or between two runs) or the last accepted one"""
+    from quansino.operations.cell import IsotropicDeformation
+    from quansino.operations.displacement import Ball
+    n = c["natoms"]
+    r0 = np.random.default_rng(c["seed"])
+    atoms = Atoms("Ar" * n, positions=r0.uniform(0, 4, (n, 3)), cell=np.array(c["cell"]), pbc=True)
+    atoms.calc = Quad()
+    cls = Isotension if c["crit"] == "drv_tens" else Isobaric
+    kw = {"external_stress": np.eye(3) * c["P"]} if cls is Isotension else {}
+    mc = cls(atoms, temperature=c["T"], pressure=c["P"], seed=c["seed"], max_cycles=2, logfile=None, **kw)
+    mc.add_move(DisplacementMove(np.arange(n), Ball(0.4)), name="d")
+    mc.add_move(CellMove(IsotropicDeformation(0.05)), name="c", probability=2.0)
+    log = []
+    for nm, ms in mc.moves.items():
+        ms.criteria = Spy(ms.criteria, log, nm)
+    out = {"runs": []}
+    for seg in c["segments"]:
+        if seg.get("scale"):
+            atoms.set_cell(atoms.cell.array * seg["scale"], scale_atoms=True)      # the user rescales the box
+        if seg.get("shift"):
+            atoms.positions[0] += np.array(seg["shift"])
+        start = {"E": Quad.energy_of(atoms), "V": float(atoms.get_volume())}
+        del log[:]
+        mc.run(seg["steps"])
+        out["runs"].append({"start": start, "trials": list(log)})
+    return out
+
+
 def handler(c):
+    if c["crit"] in ("drv_iso", "drv_tens"):
+        return drive_iso(c)
     n = c["natoms"]
     rng = np.random.default_rng(7)
     atoms = Atoms("Ar" * n if n else "", positions=rng.uniform(0, 3, (n, 3)), cell=c.get("cell_new", np.eye(3) * 10), pbc=True)
@@ -52,6 +118,8 @@ def handler(c):
         mc.add_move(CellMove(), name="m")
     elif kind == "gc":
         ex = Atoms(c["species"])
+        if c.get("mass_factor"):
+            ex.set_masses(ex.get_masses() * c["mass_factor"])
         hist = c.get("history", 0)
         mc = GrandCanonical(atoms, ex, temperature=123.0, chemical_potential=9.9, number_of_exchange_particles=77 if not hist else c["N"] - hist, seed=1, max_cycles=1)
         mc.add_move(ExchangeMove(np.arange(n)), name="m")
